@@ -57,11 +57,18 @@ class C03(CtxCheck):
 
         from . import reent
 
-        return super().units(tier, seed) + adder_units(tier) + two_type_units(tier) + reent.units(tier)
+        from . import compadds
+
+        return super().units(tier, seed) + adder_units(tier) + two_type_units(tier) + reent.units(tier) + compadds.units(tier)
 
     REENT_KEYS = {"reentrant", "stable", "visible"}
+    COMPADDS_KEYS = {"unchanged", "conflict", "teardown"}
 
     def work(self, unit: dict, tier: str) -> dict:
+        if "compadds" in unit:
+            from . import compadds
+
+            return compadds.work(unit, self.COMPADDS_KEYS)
         if "reent" in unit:
             from . import reent
 
@@ -77,6 +84,10 @@ class C03(CtxCheck):
         return super().work(unit, tier)
 
     def replay(self, rec: dict):  # type: ignore[no-untyped-def]
+        if "compadds" in rec.get("program", {}):
+            from . import compadds
+
+            return compadds.replay(rec, self.id, self.COMPADDS_KEYS)
         if "reent" in rec.get("program", {}):
             from . import reent
 
